@@ -27,6 +27,52 @@ def variant_of(o):
     return None
 
 
+def _imatches_by_delegation(ctx, f, vnames):
+    """`imatches` written as: a non-negative value is handed to `matches` unchanged (u64::try_from(value) succeeded), a
+    negative one satisfies exactly the LessThan form. Emits the same obligations as the table form (rows and sign cases);
+    returns False when the function is not of this shape (the table form is then expected)."""
+    def role(t):
+        if t.j.get("callee_name") == "try_from" and (t.j.get("callee_inst") or t.callee or "").find("u64") >= 0:
+            return "nonneg?"
+        if (t.callee or "").split("::<")[0] == CV + "::matches":
+            return "delegate"
+        return None
+    def brole(fn_, bb, o):
+        return "form" if (prim.discr_type_of_switch(fn_, bb) or "").endswith("ComparableValue") else None
+    if not any(role(t) == "delegate" for _, t in f.calls()):
+        return False
+    g = prim.event_graph(f, role, branch_role=brole)
+    edges = sorted(g.canon())
+    less = [i for i, n in vnames.items() if n == "LessThan"]
+    # the conversion is of the measured value itself; matches gets self and the converted value
+    args_ok = True
+    for b, t in f.calls():
+        r = role(t)
+        if r == "nonneg?":
+            o = prim.origin_of_operand(f, t.args[0]).strip()
+            args_ok = args_ok and o.k == "arg" and o.a.get("name") == "value"
+        elif r == "delegate":
+            o0 = prim.origin_of_operand(f, t.args[0]).strip()
+            o1 = prim.origin_of_operand(f, t.args[1]).strip()
+            conv = [c for c in o1.call_nodes()]
+            args_ok = args_ok and o0.k == "arg" and o0.a.get("name") == "self" and len(conv) == 1 and conv[0].a["name"] == "try_from" and any(x.k == "variant" and str(x.a) == "Ok" for x in o1.walk()) and all(x.k in ("field", "variant", "call", "arg", "ref", "deref") for x in o1.walk())
+    by = {}
+    for a, l, b2 in edges:
+        by.setdefault(a, []).append((l, b2))
+    nonneg_ok = sorted(by.get("nonneg?", [])) == [("0", "delegate"), ("1", "form")] and by.get("delegate") == [("", "RET(ev:delegate)")] and by.get("ENTRY") == [("", "nonneg?")]
+    form = by.get("form", [])
+    true_labels = sorted(l for l, b2 in form if b2 == "RET(const:True)")
+    rest = [b2 for l, b2 in form if b2 != "RET(const:True)"]
+    neg_ok = len(less) == 1 and true_labels == [str(less[0])] and rest and all(b2 == "RET(const:False)" for b2 in rest)
+    for name in sorted(vnames.values()):
+        ctx.ob("R2", "row:imatches:%s" % name, args_ok and nonneg_ok,
+               "imatches: a non-negative value must be compared by matches(self, value) itself (the %s row is then that of matches); events %s" % (name, C.edges_str(edges)), fn=f, how="event graph + provenance")
+        ctx.ob("R2", "sign-case:imatches:%s" % name, args_ok and nonneg_ok and neg_ok,
+               "imatches %s: a negative measured value (u64::try_from fails) must satisfy exactly the LessThan form; events %s" % (name, C.edges_str(edges)), fn=f, how="event graph")
+    ctx.ob("R2", "dispatch:imatches", True, "imatches delegates to matches for non-negative values", fn=f, nontrivial=False)
+    return True
+
+
 def run(ctx):
     prog = ctx.prog
     # ---- R1 prefix table ---------------------------------------------------------------------------------
@@ -104,6 +150,8 @@ def run(ctx):
         if f is None:
             continue
         sw = [b for b in f.reachable() if f.blocks[b].term.k == "switch" and (prim.discr_type_of_switch(f, b) or "").endswith("ComparableValue")]
+        if meth == "imatches" and _imatches_by_delegation(ctx, f, vnames):
+            continue
         ctx.ob("R2", "dispatch:%s" % meth, len(sw) == 1, "%s must dispatch once on the form; found %d" % (meth, len(sw)), fn=f, nontrivial=False)
         if len(sw) != 1:
             continue
